@@ -457,6 +457,159 @@ static void run_logged(Ctx &ctx, int64_t kase, vf::Rng &r) {
   }
 }
 
+// ---------------------------------------------------------------- nested loops with the logging value
+//   b0: i:=0 -> h1 ; h1 -> b1 | ex ; b1: assume(i<=N1-1); j:=J0 -> h2 ; h2 -> b2 | b3 ;
+//   b2: assume(j<=N2-1); j:=j+1 -> h2 ; b3: assume(j>=N2); i:=i+1 -> h1 ; ex: assume(i>=N1)
+// The inner loop is entered once per outer iteration: the widening delay counts the iterations of the
+// current visit of a loop, not the visits accumulated over the whole analysis.
+struct NestIt : public interleaved_fwd_fixpoint_iterator<z_cfg_ref_t, LogVal> {
+  using base = interleaved_fwd_fixpoint_iterator<z_cfg_ref_t, LogVal>;
+  z_var i, j;
+  int64_t N1, N2, J0;
+  NestIt(z_cfg_ref_t c, const crab::fixpoint_parameters &p, z_var i_, z_var j_, int64_t n1, int64_t n2, int64_t j0) : base(c, LogVal(), p, false), i(i_), j(j_), N1(n1), N2(n2), J0(j0) {}
+  static itv_dom_t step(const std::string &b, itv_dom_t d, z_var i, z_var j, int64_t N1, int64_t N2, int64_t J0) {
+    z_lin_cst_sys_t s;
+    if (b == "b0") d.assign(i, z_lin_exp_t(z_number(0)));
+    else if (b == "b1") {
+      s += z_lin_cst_t(z_lin_exp_t(i) - z_number(N1 - 1), z_lin_cst_t::INEQUALITY);
+      d += s;
+      d.assign(j, z_lin_exp_t(z_number(J0)));
+    } else if (b == "b2") {
+      s += z_lin_cst_t(z_lin_exp_t(j) - z_number(N2 - 1), z_lin_cst_t::INEQUALITY);
+      d += s;
+      d.assign(j, z_lin_exp_t(j) + z_number(1));
+    } else if (b == "b3") {
+      s += z_lin_cst_t(z_number(N2) - z_lin_exp_t(j), z_lin_cst_t::INEQUALITY);
+      d += s;
+      d.assign(i, z_lin_exp_t(i) + z_number(1));
+    } else if (b == "ex") {
+      s += z_lin_cst_t(z_number(N1) - z_lin_exp_t(i), z_lin_cst_t::INEQUALITY);
+      d += s;
+    }
+    return d;
+  }
+  LogVal analyze(const std::string &b, LogVal &&v) override {
+    if (g_log) g_log->ops.push_back("an:" + b);
+    return LogVal(step(b, v.d, i, j, N1, N2, J0));
+  }
+  void process_pre(const std::string &, LogVal) override {}
+  void process_post(const std::string &, LogVal) override {}
+};
+
+static void run_nested(Ctx &ctx, int64_t kase, vf::Rng &r) {
+  ctx.evaluations++;
+  variable_factory_t vfac;
+  z_var i(vfac["i"], crab::INT_TYPE, 32), j(vfac["j"], crab::INT_TYPE, 32);
+  int64_t N1 = r.below(7), N2 = r.below(7), J0 = r.range(-2, 2);
+  unsigned delay = r.below(11);
+  z_cfg_t cfg("b0", "ex");
+  for (auto n : {"b0", "h1", "b1", "h2", "b2", "b3", "ex"}) cfg.insert(n);
+  cfg.get_node("b0") >> cfg.get_node("h1");
+  cfg.get_node("h1") >> cfg.get_node("b1");
+  cfg.get_node("h1") >> cfg.get_node("ex");
+  cfg.get_node("b1") >> cfg.get_node("h2");
+  cfg.get_node("h2") >> cfg.get_node("b2");
+  cfg.get_node("b2") >> cfg.get_node("h2");
+  cfg.get_node("h2") >> cfg.get_node("b3");
+  cfg.get_node("b3") >> cfg.get_node("h1");
+  z_cfg_ref_t ref(cfg);
+  crab::fixpoint_parameters p;
+  p.get_widening_delay() = delay;
+  p.get_descending_iterations() = 0; // the log of the increasing phase is then unambiguous
+  p.get_max_thresholds() = r.chance(1, 2) ? 0 : 10;
+  std::string desc = "i:=0; while(i<" + std::to_string(N1) + "){ j:=" + std::to_string(J0) + "; while(j<" + std::to_string(N2) + ") j++; i++ } ; delay=" + std::to_string(delay) + " thresholds=" + std::to_string(p.get_max_thresholds());
+  CallLog log;
+  try {
+    NestIt it(ref, p, i, j, N1, N2, J0);
+    g_log = &log;
+    it.run(LogVal(itv_dom_t()));
+    g_log = nullptr;
+    // ---- offline check of the log: per visit of a loop, the k-th failed stabilisation test is followed by a join for k <= delay
+    std::map<std::string, int> failed; // per head, in the current visit
+    std::string last_an;
+    int inner_visits = 0, max_failed_inner = 0, max_failed_outer = 0;
+    for (size_t k = 0; k < log.ops.size(); ++k) {
+      const std::string &o = log.ops[k];
+      if (o.compare(0, 3, "an:") == 0) {
+        last_an = o.substr(3);
+        if (last_an == "b1") { // the inner loop is entered anew
+          failed["h2"] = 0;
+          inner_visits++;
+        }
+        if (last_an == "b0") failed["h1"] = 0;
+        continue;
+      }
+      if (o.compare(0, 4, "leq:") != 0) continue;
+      std::string head = last_an == "b2" ? "h2" : last_an == "b3" ? "h1" : "";
+      if (head.empty()) continue; // a test that does not close an iteration of one of the two loops
+      if (o == "leq:1") continue;
+      int f = ++failed[head];
+      if (head == "h2") max_failed_inner = std::max(max_failed_inner, f);
+      else max_failed_outer = std::max(max_failed_outer, f);
+      size_t m = k + 1;
+      while (m < log.ops.size() && log.ops[m] != "join" && log.ops[m] != "widen" && log.ops[m] != "widen_th" && log.ops[m].compare(0, 3, "an:") != 0) ++m;
+      if (m < log.ops.size() && log.ops[m].compare(0, 3, "an:") != 0) {
+        bool is_widen = log.ops[m] != "join";
+        ctx.count("nested_extrapolation_calls_checked");
+        if ((unsigned)f <= delay && is_widen)
+          ctx.violation("C06", "nested|extrapolation-before-delay|" + head, kase, "in one visit of loop " + head + " the failed stabilisation test #" + std::to_string(f) + " was followed by " + log.ops[m] + " although widening_delay=" + std::to_string(delay) + " ; " + desc);
+      }
+    }
+    if (inner_visits >= 2) ctx.count("nested_cases_inner_loop_reentered");
+    // ---- join-only least fixpoint by chaotic iteration in the harness
+    std::map<std::string, itv_dom_t> pre, post;
+    const char *names[] = {"b0", "h1", "b1", "h2", "b2", "b3", "ex"};
+    std::map<std::string, std::vector<std::string>> preds = {{"h1", {"b0", "b3"}}, {"b1", {"h1"}}, {"h2", {"b1", "b2"}}, {"b2", {"h2"}}, {"b3", {"h2"}}, {"ex", {"h1"}}};
+    itv_dom_t top;
+    for (auto n : names) {
+      pre[n] = top.make_bottom();
+      post[n] = top.make_bottom();
+    }
+    pre["b0"] = top;
+    bool changed = true;
+    int rounds = 0;
+    while (changed && rounds < 400) {
+      changed = false;
+      rounds++;
+      for (auto n : names) {
+        itv_dom_t in = pre[n];
+        if (std::string(n) != "b0") {
+          in = top.make_bottom();
+          for (auto &q : preds[n]) in = in | post[q];
+        }
+        itv_dom_t out = in.is_bottom() ? in : NestIt::step(n, in, i, j, N1, N2, J0);
+        if (!(in <= pre[n]) || !(out <= post[n])) changed = true;
+        pre[n] = pre[n] | in;
+        post[n] = post[n] | out;
+      }
+    }
+    // every visit stabilised by joins only?
+    if (!changed && (unsigned)max_failed_inner <= delay && (unsigned)max_failed_outer <= delay) {
+      ctx.count("nested_join_only_fixpoints_compared");
+      for (auto n : names) {
+        itv_dom_t got = it.get_pre(n).d;
+        if (!(got <= pre[n]) || !(pre[n] <= got)) {
+          crab::crab_string_os o1, o2;
+          o1 << got;
+          itv_dom_t w = pre[n];
+          o2 << w;
+          ctx.violation("C06", "nested|not-join-only-fixpoint", kase, "invariant at " + std::string(n) + " is " + o1.str() + " but the join-only least fixpoint is " + o2.str() + " ; " + desc);
+          break;
+        }
+      }
+    }
+    ctx.nontrivial_case(vf::hash_str(desc));
+    if (ctx.want_sample()) {
+      std::string l;
+      for (auto &o : log.ops) l += o + " ";
+      ctx.sample("{\"program\":" + vf::jstr(desc) + ",\"lattice_call_log\":" + vf::jstr(l.substr(0, 600)) + "}");
+    }
+  } catch (crab::verif_error &e) {
+    g_log = nullptr;
+    ctx.violation("C06", "nested|crab-error", kase, e.msg + " ; " + desc);
+  }
+}
+
 int main(int argc, char **argv) {
   Ctx ctx = vf::parse_args(argc, argv);
   crab::CrabEnableWarningMsg(false);
@@ -479,6 +632,12 @@ int main(int argc, char **argv) {
       FCase c;
       rand_case(r, c);
       run_finite(ctx, k, c, true, &r);
+    }
+  } else if (ctx.engine == "nested") {
+    for (int64_t k = ctx.from; k < ctx.from + ctx.num; ++k) {
+      ctx.mark(k);
+      vf::Rng r(vf::case_seed(ctx, k));
+      run_nested(ctx, k, r);
     }
   } else if (ctx.engine == "logged") {
     for (int64_t k = ctx.from; k < ctx.from + ctx.num; ++k) {
